@@ -17,7 +17,14 @@
 (*          (IBB stream none / open / one block received / closed locally / closed by  *)
 (*          the peer, tracked history query, pending receipt, managed room) and the    *)
 (*          sequences that reach every such state, each followed by every shape of     *)
-(*          every stanza of that handler;                                              *)
+(*          every stanza of that handler; and the IDENTITY of the served session: how   *)
+(*          it was made (initiated / received, client / server namespace, WebSocket     *)
+(*          framing), what its local address is (full, bare, domain only, EMPTY: no     *)
+(*          origin given and none named by the peer's stream header) and what the       *)
+(*          application has done with it (Close before Serve, Serve called again after  *)
+(*          it returned, never served at all), crossed with the addressing of the       *)
+(*          stanzas (from / to absent, empty, the session's own bare / full / domain    *)
+(*          address, another entity, junk);                                             *)
 (*  part 3  the run protocol (what a trace of one scenario must look like).  The only  *)
 (*          obligations are C09_NoPanic and C09_Terminates: Serve keeps going or       *)
 (*          returns (nil or an error) and has returned once the input ended; every     *)
@@ -339,15 +346,19 @@ SecondFew(h) == {r \in RepliesOf(h) : \E s \in {"#result-expected", "#result-abs
 (* helpers whose reply is routed through a registered handler also with that handler in its  *)
 (* default configuration (cfg "zero", see part 2)                                            *)
 HandlerHelpers == {"muc.Join"}
+(* sess / life: the identity of the served session and what the application does with it     *)
+(* (part 2); these scenarios run on the usual one                                            *)
+RepSc(c, x, lf, h, items) == [mode |-> "reply", cfg |-> c, sess |-> x, life |-> lf, helper |-> h.name, items |-> items]
+UsualSess == [kind |-> "c2s", addr |-> "full"]
 ReplyScenarios ==
-  UNION {   {[mode |-> "reply", cfg |-> "listen", helper |-> h.name, items |-> <<r>>] : r \in RepliesOf(h)}
+  UNION {   {RepSc("listen", UsualSess, "fresh", h, <<r>>) : r \in RepliesOf(h)}
        \cup (IF h.name \in HandlerHelpers
-             THEN {[mode |-> "reply", cfg |-> "zero", helper |-> h.name, items |-> <<r>>] : r \in RepliesOf(h)}
+             THEN {RepSc("zero", UsualSess, "fresh", h, <<r>>) : r \in RepliesOf(h)}
              ELSE {})
        \cup (IF h.second
-             THEN {[mode |-> "reply", cfg |-> "listen", helper |-> h.name, items |-> <<OkReply(h), r>>] :
+             THEN {RepSc("listen", UsualSess, "fresh", h, <<OkReply(h), r>>) :
                       r \in (IF h.name = "ibb.Write" THEN RepliesOf(h) ELSE SecondFew(h))}
-                  \cup {[mode |-> "reply", cfg |-> "listen", helper |-> h.name, items |-> <<OkReply(h)>>]}
+                  \cup {RepSc("listen", UsualSess, "fresh", h, <<OkReply(h)>>)}
              ELSE {}) : h \in Helpers}
 
 ---------------------------------------------------------------------------
@@ -398,6 +409,86 @@ Labels == {s.lab : s \in Alphabet}
 Cfgs == {"listen", "zero", "nolisten"}
 (* the configurations in which every table state of every handler can be reached *)
 StateCfgs == {"listen", "zero"}
+
+(* ----- the identity of the served session -----                                          *)
+(* kind: how the session is made - "c2s" xmpp.NewSession with the application's own         *)
+(* Negotiator, client namespace; "s2s" the same with the S2S bit and the server namespace;  *)
+(* "rc2s" / "rs2s" xmpp.ReceiveSession (the local side is the receiving server);            *)
+(* "ws" the library's negotiator with the WebSocket framing (websocket.NewSession); "comp"  *)
+(* a component session (component.NewSession: handshake, namespace jabber:component:accept). *)
+(* addr: the class of the session's local address - the origin given to the constructor     *)
+(* and named by the "to" of the peer's stream header (received sessions: only the header    *)
+(* names it): "full", "bare" (a client that has not bound a resource), "domain" (a server,  *)
+(* a component), "empty": the zero address - NO origin was given and the peer's header has  *)
+(* no "to" (a Negotiator that leaves the addresses alone, a received session whose peer     *)
+(* names nobody, a server that omits "to" in its response header).                          *)
+Kinds == {"c2s", "s2s", "rc2s", "rs2s", "ws", "comp"}
+AddrClasses == {"full", "bare", "domain", "empty"}
+LegitAddrs(k) == CASE k = "c2s" -> AddrClasses
+                   [] k = "ws"  -> {"full", "bare", "empty"}
+                   [] OTHER     -> {"domain", "empty"}        \* the local side is a server / a component
+Sess(k, a) == [kind |-> k, addr |-> a]
+Sessions == UNION {{Sess(k, a) : a \in LegitAddrs(k)} : k \in Kinds}
+DefaultSess == Sess("c2s", "full")
+(* the concrete addresses of a session of address class a *)
+LocalOfAddr(a)  == CASE a = "full" -> Own [] a = "bare" -> OwnBare [] a = "domain" -> "example.net" [] OTHER -> ""
+BareOfAddr(a)   == CASE a \in {"full", "bare"} -> OwnBare [] a = "domain" -> "example.net" [] OTHER -> ""
+FullOfAddr(a)   == CASE a \in {"full", "bare"} -> Own [] a = "domain" -> "example.net/res" [] OTHER -> ""
+DomainOfAddr(a) == IF a = "empty" THEN "" ELSE "example.net"
+(* what the application has done with the session when / after the scenario's items arrive:  *)
+(* "fresh" Serve is called once, right away; "closed" the application has called Close()     *)
+(* before Serve; "again" when Serve has returned the application calls it a second time;     *)
+(* "unserved" Serve is never called: a helper is called, then the application closes the     *)
+(* session and cancels.                                                                      *)
+Lives == {"fresh", "closed", "again", "unserved"}
+Serves(lf) == CASE lf = "unserved" -> 0 [] lf = "again" -> 2 [] OTHER -> 1
+
+(* ----- the addressing of a stanza on a session of address class a -----                   *)
+(* from / to: absent, empty, the session's own bare / full / domain address, another        *)
+(* entity, junk.  The own addresses of a session without an address are all empty: they     *)
+(* coincide with the shape "empty" and are not listed twice.                                *)
+NoAttr == "(none)"
+OwnShapes(a) ==
+     (IF BareOfAddr(a) # "" THEN {<<"ownbare", BareOfAddr(a)>>, <<"ownfull", FullOfAddr(a)>>} ELSE {})
+  \cup (IF DomainOfAddr(a) # "" /\ DomainOfAddr(a) # BareOfAddr(a) THEN {<<"owndomain", DomainOfAddr(a)>>} ELSE {})
+FromShapes(a, other) == {<<"none", NoAttr>>, <<"empty", "">>, <<"other", other>>, <<"junk", "@/">>} \cup OwnShapes(a)
+ToShapes(a) == {<<"none", NoAttr>>, <<"empty", "">>, <<"other", "romeo@example.org/x">>, <<"junk", "@/">>} \cup OwnShapes(a)
+(* the usual addressing on that session: sent by the entity the target names (the account    *)
+(* itself becomes the session's own bare address), addressed to the session's full address;   *)
+(* an address the session does not have is left out                                           *)
+BaseFrom(tg, a) == LET v == (IF tg.from = OwnBare THEN BareOfAddr(a) ELSE tg.from) IN IF v = "" THEN NoAttr ELSE v
+BaseTo(a) == IF FullOfAddr(a) = "" THEN NoAttr ELSE FullOfAddr(a)
+OtherFrom(tg) == IF tg.from = OwnBare THEN Peer ELSE tg.from
+AddrAttr(nm, v) == IF v = NoAttr THEN <<>> ELSE <<A(nm, v)>>
+AddrStanza(tg, ty, f, t) ==
+  E(StName(tg), IF tg.kind = "other" THEN VTQ ELSE "",
+    (IF ty = "" THEN <<>> ELSE <<A("type", ty)>>) \o <<A("id", IF tg.kind = "iq" THEN "i1" ELSE "m1")>>
+      \o AddrAttr("from", f) \o AddrAttr("to", t),
+    <<tg.pl>>)
+AdLab(tg, a, fs, ts) == tg.name \o "/" \o tg.types[1] \o "#ad-" \o a \o ":from-" \o fs \o ":to-" \o ts
+(* every target with every from shape (usual to) and every to shape (usual from) ...          *)
+(* (the usual from is always one of the from shapes: "other", "ownbare" or "none")            *)
+AddrSingles(tg, a) ==
+     {[lab |-> AdLab(tg, a, f[1], "base"), fam |-> tg.fam, node |-> AddrStanza(tg, tg.types[1], f[2], BaseTo(a))] :
+         f \in FromShapes(a, OtherFrom(tg))}
+  \cup {[lab |-> AdLab(tg, a, "base", t[1]), fam |-> tg.fam, node |-> AddrStanza(tg, tg.types[1], BaseFrom(tg, a), t[2])] :
+         t \in ToShapes(a)}
+(* ... and, for one target of each path of the serve loop (a registered and an unregistered   *)
+(* request - the default reply is addressed to the sender -, a message, a presence), every    *)
+(* from shape with every to shape                                                             *)
+CrossTargets == {"ping", "none.iq", "none.message", "none.presence"}
+AddrCross(tg, a) ==
+  {[lab |-> AdLab(tg, a, f[1], t[1]), fam |-> tg.fam, node |-> AddrStanza(tg, tg.types[1], f[2], t[2])] :
+      f \in FromShapes(a, OtherFrom(tg)), t \in ToShapes(a)}
+AddrAlphabet(a, all) ==
+  UNION {(IF all THEN AddrSingles(tg, a) ELSE {}) \cup (IF tg.name \in CrossTargets THEN AddrCross(tg, a) ELSE {}) : tg \in Targets}
+(* the few every session gets: every target as usually addressed and without from *)
+AddrFew(a) == UNION {{x \in AddrSingles(tg, a) : \E fs \in {"other", "none", "ownbare"} : x.lab = AdLab(tg, a, fs, "base")} : tg \in Targets}
+(* the sessions with the client's way of making them get every target with every shape, the    *)
+(* others the cross of the four paths and every target as usually addressed / without from /   *)
+(* from the session's own address                                                              *)
+SessAlphabetOf(x) == IF x.kind = "c2s" THEN AddrAlphabet(x.addr, TRUE) ELSE AddrAlphabet(x.addr, FALSE) \cup AddrFew(x.addr)
+AddrLabelled == UNION {AddrAlphabet(a, TRUE) : a \in AddrClasses}
 
 (* ----- the table states of the stateful handlers -----                                   *)
 (* For IBB the state is (stream table entry, carrier, LOCAL state of the bytestream on     *)
@@ -484,7 +575,7 @@ Again(f, p) == <<p, p>> \o FamCall(f)
 (* setup = the number of leading items that are the setup: the application actions among    *)
 (* them must really establish the state the generator means (the driver reports whether they  *)
 (* did; the trace specification requires it)                                                  *)
-SeqSc(cfg, setup, items) == [mode |-> "seq", cfg |-> cfg, setup |-> setup, items |-> items]
+SeqSc(cfg, setup, items) == [mode |-> "seq", cfg |-> cfg, sess |-> DefaultSess, life |-> "fresh", setup |-> setup, items |-> items]
 SingleLabels == Labels \ {x.lab : x \in AckStanzas}
 Singles == {SeqSc(c, 0, <<l>>) : l \in SingleLabels, c \in StateCfgs}
 NoListen == {SeqSc("nolisten", 0, <<l>>) : l \in {Exp("ibb.open"), Exp("ibb.data"), Exp("ibb.close"), Exp("ibb.msgdata")}}
@@ -502,17 +593,46 @@ Pairs == {SeqSc("listen", 0, <<s.lab, Exp("ping")>>) :
             s \in {a \in Alphabet : a.lab # Exp("ping") /\      \* (ping, ping) is one of Repeats
                       (\E tg \in Targets : a.lab = Lab(tg, tg.types[1], "expected") \/ a.lab = Lab(tg, tg.types[1], ":empty"))}}
 Singles2 == {SeqSc("listen", 0, <<s.lab>>) : s \in Alphabet2}
-SeqScenarios == Singles \cup NoListen \cup Repeats \cup Stateful3 \cup StatefulRep \cup Pairs
+(* ----- the identity of the session crossed with the addressing of the stanzas -----          *)
+SessSc(x, lf, c, items) == [mode |-> "seq", cfg |-> c, sess |-> x, life |-> lf, setup |-> 0, items |-> items]
+(* the session without an address also with the default handlers *)
+SessCfgs(x) == IF x = Sess("c2s", "empty") THEN StateCfgs ELSE {"listen"}
+SessSingles == UNION {{SessSc(x, "fresh", c, <<st.lab>>) : st \in SessAlphabetOf(x), c \in SessCfgs(x)} : x \in Sessions}
+(* what the application has done with the session: Close() before Serve, Serve called again    *)
+(* after it returned - every registered stanza as expected and every stream-level input, on    *)
+(* the usual session, the one without an address and one with the WebSocket framing            *)
+LifeItems == {Exp(tg.name) : tg \in Targets} \cup {st.lab : st \in StreamLevel}
+LifeSessions == {DefaultSess, Sess("c2s", "empty"), Sess("ws", "full")}
+LifeSeqs == {SessSc(x, lf, "listen", <<l>>) : x \in LifeSessions, lf \in {"closed", "again"}, l \in LifeItems}
+(* the replies to the core helpers (and to the one whose reply a handler routes) with every    *)
+(* from shape, on every session                                                                *)
+SessHelperNames == {"core.SendIQ", "core.UnmarshalIQ", "core.IterIQ", "core.SendMessage", "core.SendPresence", "ping.Send", "muc.Join"}
+AddrReplies(h, a) ==
+  {[lab |-> h.name \o "#ad-" \o a \o ":from-" \o f[1],
+    node |-> E(h.kind, "", <<A("type", IF h.errs = "only" THEN "error" ELSE "result"), A("id", "$REQ")>>
+                             \o AddrAttr("from", f[2]) \o AddrAttr("to", BaseTo(a)),
+               IF h.errs = "only" THEN <<ErrEl>> ELSE <<h.pl>>)] : f \in FromShapes(a, Peer)}
+SessReplies == UNION {UNION {{RepSc("listen", x, "fresh", h, <<r>>) : r \in AddrReplies(h, x.addr)} :
+                               h \in {g \in Helpers : g.name \in SessHelperNames}} : x \in Sessions}
+(* every helper on a session that nobody serves (the application then closes it and cancels)    *)
+(* and on a session the application has closed                                                  *)
+OwnPeerHelpers == {"xmpp.BindResource"}      \* negotiates a session of its own
+LifeReplies ==
+     {RepSc("listen", x, "unserved", h, <<>>) : h \in {g \in Helpers : g.name \notin OwnPeerHelpers}, x \in {DefaultSess, Sess("c2s", "empty")}}
+  \cup {RepSc("listen", DefaultSess, "closed", h, <<OkReply(h)>>) : h \in {g \in Helpers : g.name \notin OwnPeerHelpers}}
+SessReplyScenarios == SessReplies \cup LifeReplies
+SeqScenarios == Singles \cup NoListen \cup Repeats \cup Stateful3 \cup StatefulRep \cup Pairs \cup SessSingles \cup LifeSeqs
 PairsOf(f) == Cardinality(NonEmptySetups(f)) * Cardinality(Probes(f)) * Cardinality(StateCfgs)
 RECURSIVE SumPairs(_)
 SumPairs(F) == IF F = {} THEN 0 ELSE LET f == CHOOSE g \in F : TRUE IN PairsOf(f) + SumPairs(F \ {f})
 (* the classes are pairwise disjoint (C09_ClassesDisjoint): tools enumerate them one by one  *)
 (* instead of normalising the big union                                                      *)
-SeqClasses == <<Singles, NoListen, Repeats, Stateful3, StatefulRep, Pairs>>
+SeqClasses == <<Singles, NoListen, Repeats, Stateful3, StatefulRep, Pairs, SessSingles, LifeSeqs>>
 (* their number (the facts C09_EveryShapeInEveryState, C09_EveryConfigCrossed and               *)
 (* C09_ClassesDisjoint establish the cardinalities used here)                                  *)
 NSeqScenarios == 2 * Cardinality(SingleLabels) * Cardinality(StateCfgs) + Cardinality(NoListen)
                  + SumPairs(Stateful) + SumPairs(RepFamilies) + Cardinality(Pairs)
+                 + Cardinality(SessSingles) + Cardinality(LifeSeqs)
 
 (* design-level facts about the generator (checked by TLC as ASSUMEs of MCPeerInput)   *)
 C09_EveryTableStateReachable == \A f \in Stateful : TableStates(f) \subseteq ReachedStates(f)
@@ -520,6 +640,8 @@ C09_LabelsUnique == Cardinality(Labels) = Cardinality(Alphabet)
 AppNames == {"app:hist_fetch", "app:hist_abandon", "app:rcpt_send", "app:rcpt_elem", "app:muc_join", "app:muc_leave", "app:ibb_write",
              "app:ibb_lclose", "app:ibb_open"}
 MaxItems == 7      \* the longest scenario (thorough tier: setup of 4 steps, a probe twice, a helper call)
+(* the scenarios that vary what the application does with the session are short *)
+MaxItemsOf(lf) == IF lf = "fresh" THEN MaxItems ELSE 2
 (* every item of every sequence is a known stanza or application action: the sequences are    *)
 (* built from single labels and probes (labels by definition), setups, helper calls, and the  *)
 (* few hand-picked labels of NoListen / Pairs (the first item of a pair is a label of the      *)
@@ -574,6 +696,40 @@ C09_LocalStateCrossed ==
   /\ \A x \in SetupsOK("ibb", Depth("ibb")) :
         (x[2] # "closed" => LocFold(x[1], "clean") = LocalOf(x[2]))
 
+(* the identity of the session is crossed with the addressing of the stanzas: every kind of   *)
+(* session exists without a local address; on every session every target is sent as usually   *)
+(* addressed, without from and (where the session has an address) from the session itself;      *)
+(* on every session every from shape meets every to shape on each path of the serve loop; on    *)
+(* the sessions a client makes every target gets every from shape and every to shape; the       *)
+(* shapes of a session without an address do not repeat the empty one; the labels are unique    *)
+(* and apart from the other ones; every life of a session occurs                                *)
+(* (TLC evaluates a LET definition anew at every use: the facts are stated as inclusions        *)
+(* between sets that are each built once)                                                       *)
+SessLabels(x) == {st.lab : st \in SessAlphabetOf(x)}
+SessCrossed(x) ==
+  LET a == x.addr
+      F == FromShapes(a, Peer)
+      T == ToShapes(a)
+  IN    {AdLab(tg, a, fs, "base") : tg \in Targets, fs \in {"none", "other"} \cup (IF a = "empty" THEN {} ELSE {"ownbare"})}
+   \cup (IF x.kind = "c2s" THEN {AdLab(tg, a, f[1], "base") : tg \in Targets, f \in F} \cup {AdLab(tg, a, "base", t[1]) : tg \in Targets, t \in T}
+         ELSE {})
+   \cup {AdLab(TargetNamed(nm), a, f[1], t[1]) : nm \in CrossTargets, f \in F, t \in T}
+RECURSIVE SumSess(_)
+SumSess(SS) == IF SS = {} THEN 0 ELSE LET x == CHOOSE y \in SS : TRUE IN
+                                     Cardinality(SessAlphabetOf(x)) * Cardinality(SessCfgs(x)) + SumSess(SS \ {x})
+C09_EverySessionCrossed ==
+  /\ DefaultSess \in Sessions /\ UsualSess = DefaultSess
+  /\ \A k \in Kinds : Sess(k, "empty") \in Sessions /\ \E a \in LegitAddrs(k) : a # "empty"
+  /\ \A x \in Sessions : SessCrossed(x) \subseteq SessLabels(x)
+  /\ Cardinality(SessSingles) = SumSess(Sessions)
+  /\ OwnShapes("empty") = {} /\ \A a \in AddrClasses \ {"empty"} : Cardinality(OwnShapes(a)) >= 2
+  /\ \A a \in AddrClasses : \A f \in FromShapes(a, Peer) \cup ToShapes(a) : f[1] \in {"none", "empty"} \/ f[2] \notin {"", NoAttr}
+  /\ Cardinality({st.lab : st \in AddrLabelled}) = Cardinality(AddrLabelled)
+  /\ {st.lab : st \in AddrLabelled} \cap Labels = {}
+  /\ {sc.life : sc \in LifeSeqs \cup LifeReplies} = Lives \ {"fresh"}
+  /\ \A sc \in LifeSeqs : Len(sc.items) <= MaxItemsOf(sc.life)
+  /\ \A sc \in SessReplyScenarios : sc.sess \in Sessions /\ sc.life \in Lives /\ Len(sc.items) <= MaxItemsOf(sc.life)
+
 ---------------------------------------------------------------------------
 (*                         PART 3 - the run protocol                                   *)
 (* One scenario: n items (stanzas fed by the peer, calls started by the application);  *)
@@ -581,76 +737,117 @@ C09_LocalStateCrossed ==
 
 VARIABLES n,          \* number of items of the scenario
           cfg,        \* the configuration of the handler table of the served session
+          life,       \* what the application does with the session (Lives)
           pos,        \* items handed to the library so far
           eof,        \* the peer ended the input
-          served,     \* "running" | "returned"
+          served,     \* "idle" (Serve not called yet) | "running" | "returned"
+          nserve,     \* calls of Serve so far
+          outclosed,  \* the application has called Close()
           ncalls,     \* application calls / helpers started
           nret,       \* of which returned
           loc,        \* local state of the extension: written, unflushed bytes of the application
           cancelled   \* the application cancelled the contexts of its pending calls
-vars == <<n, cfg, pos, eof, served, ncalls, nret, loc, cancelled>>
+vars == <<n, cfg, life, pos, eof, served, nserve, outclosed, ncalls, nret, loc, cancelled>>
+(* The kind of the session and the class of its local address (Sessions) are constants of a   *)
+(* run that no step of the protocol depends on - the obligations are the same on every        *)
+(* session -: the trace specification checks them on the reset line and against what the       *)
+(* driver observes on the real session.                                                        *)
 
 Acts == AppNames \cup {"helper"}
-Init == /\ n \in 0..MaxItems /\ cfg \in Cfgs /\ pos = 0 /\ eof = FALSE /\ served = "running"
-        /\ ncalls = 0 /\ nret = 0 /\ loc = "clean" /\ cancelled = FALSE
+Init == /\ life \in Lives /\ n \in 0..MaxItemsOf(life) /\ cfg \in Cfgs /\ pos = 0 /\ eof = FALSE /\ served = "idle"
+        /\ nserve = 0 /\ outclosed = FALSE /\ ncalls = 0 /\ nret = 0 /\ loc = "clean" /\ cancelled = FALSE
 
+(* environment: the application calls Serve - for the first time (in the life "closed": after  *)
+(* it has closed the session) or, in the life "again", once more after Serve has returned      *)
+ServeStart ==
+  /\ served \in {"idle", "returned"} /\ nserve < Serves(life) /\ ~cancelled
+  /\ (life = "closed" => outclosed)
+  /\ served' = "running" /\ nserve' = nserve + 1
+  /\ UNCHANGED <<n, cfg, life, pos, eof, outclosed, ncalls, nret, loc, cancelled>>
+(* environment + library: the application calls Close() on a session that is not being served  *)
+(* (before Serve in the life "closed"; instead of ever serving it in the life "unserved");     *)
+(* Close returns nil or an error                                                               *)
+LocalClose(out) ==
+  /\ life \in {"closed", "unserved"} /\ served = "idle" /\ ~outclosed /\ out \in {"nil", "error"}
+  /\ outclosed' = TRUE
+  /\ UNCHANGED <<n, cfg, life, pos, eof, served, nserve, ncalls, nret, loc, cancelled>>
 (* environment: the peer sends the next stanza once the library asks for input *)
 Feed(i, cut) ==
   /\ served = "running" /\ ~eof /\ i = pos + 1 /\ i <= n
   /\ pos' = (IF cut THEN n ELSE i)
-  /\ UNCHANGED <<n, cfg, eof, served, ncalls, nret, loc, cancelled>>
+  /\ UNCHANGED <<n, cfg, life, eof, served, nserve, outclosed, ncalls, nret, loc, cancelled>>
 (* environment: the application starts a call (item i of a sequence, or the helper i = 0); *)
 (* what it leaves in the extension's local state is part of the state the peer's next      *)
-(* stanza meets                                                                            *)
+(* stanza meets.  On a session nobody serves the helper is called all the same.            *)
 AppStart(i, act) ==
-  /\ served = "running" /\ ~eof /\ act \in Acts
-  /\ \/ i = pos + 1 /\ i <= n /\ pos' = i /\ act # "helper"
+  /\ \/ served = "running" /\ ~eof
+     \/ life = "unserved" /\ ~outclosed /\ ~cancelled
+  /\ act \in Acts
+  /\ \/ i = pos + 1 /\ i <= n /\ pos' = i /\ act # "helper" /\ served = "running"
      \/ i = 0 /\ ncalls = 0 /\ pos' = pos /\ act = "helper"
   /\ ncalls' = ncalls + 1
   /\ loc' = LocAfter(act, loc)
-  /\ UNCHANGED <<n, cfg, eof, served, nret, cancelled>>
+  /\ UNCHANGED <<n, cfg, life, eof, served, nserve, outclosed, nret, cancelled>>
 (* environment: the peer ends the stream (after its last item, or earlier: a cut)      *)
 Eof == /\ served = "running" /\ ~eof /\ eof' = TRUE
-       /\ UNCHANGED <<n, cfg, pos, served, ncalls, nret, loc, cancelled>>
+       /\ UNCHANGED <<n, cfg, life, pos, served, nserve, outclosed, ncalls, nret, loc, cancelled>>
 (* library: Serve returns - at any time with an error (the property allows it to give  *)
-(* up on any input), and it MUST return once the input ended - in every configuration  *)
-(* of the handler table and whatever the local state of the extension is               *)
+(* up on any input), and it MUST return once the input ended - on every session, in    *)
+(* every configuration of the handler table, whatever the local state of the extension *)
+(* is, whether the application has closed the session before and whether it is the     *)
+(* first call of Serve or the second                                                   *)
 ServeReturn(out) ==
   /\ served = "running" /\ out \in {"nil", "error"}
   /\ served' = "returned"
-  /\ UNCHANGED <<n, cfg, pos, eof, ncalls, nret, loc, cancelled>>
+  /\ UNCHANGED <<n, cfg, life, pos, eof, nserve, outclosed, ncalls, nret, loc, cancelled>>
+(* the application is done with the session: every call of Serve it makes has returned, *)
+(* or it has closed the session it never served                                         *)
+SessionGone == /\ served # "running" /\ nserve = Serves(life)
+               /\ (life = "unserved" => outclosed)
 (* environment: with the session gone the application cancels what is still pending   *)
-Cancel == /\ served = "returned" /\ ~cancelled /\ cancelled' = TRUE
-          /\ UNCHANGED <<n, cfg, pos, eof, served, ncalls, nret, loc>>
+Cancel == /\ SessionGone /\ ~cancelled /\ cancelled' = TRUE
+          /\ UNCHANGED <<n, cfg, life, pos, eof, served, nserve, outclosed, ncalls, nret, loc>>
 (* library: a call returns a value or an error - at any time, and it MUST return once  *)
 (* its context is cancelled                                                            *)
 CallReturn(k, out) ==
   /\ k = nret + 1 /\ k <= ncalls /\ out \in {"value", "error"}
   /\ nret' = k
-  /\ UNCHANGED <<n, cfg, pos, eof, served, ncalls, loc, cancelled>>
-Quiescent == served = "returned" /\ nret = ncalls
+  /\ UNCHANGED <<n, cfg, life, pos, eof, served, nserve, outclosed, ncalls, loc, cancelled>>
+Quiescent == SessionGone /\ nret = ncalls
 
 Next == \/ \E i \in 0..MaxItems : \E cut \in BOOLEAN : Feed(i, cut)
         \/ \E i \in 0..MaxItems : \E a \in Acts : AppStart(i, a)
-        \/ Eof \/ Cancel
+        \/ Eof \/ Cancel \/ ServeStart
+        \/ \E o \in {"nil", "error"} : LocalClose(o)
         \/ \E o \in {"nil", "error"} : ServeReturn(o)
         \/ \E k \in 1..(MaxItems + 1) : \E o \in {"value", "error"} : CallReturn(k, o)
 
 (* what the library owes: *)
 LibServe == (eof /\ \E o \in {"nil", "error"} : ServeReturn(o))
 LibCalls == (cancelled /\ \E k \in 1..(MaxItems + 1) : \E o \in {"value", "error"} : CallReturn(k, o))
-(* what the environment does in every scenario the driver runs: *)
+(* what the environment does in every scenario the driver runs: the application calls Serve   *)
+(* as often as its life says, closes the session where its life says so (Close returns), the   *)
+(* peer ends the input, the application cancels when the session is gone                       *)
+EnvServes == ServeStart
+EnvCloses == \E o \in {"nil", "error"} : LocalClose(o)
 EnvEnds == Eof \/ Cancel
 
 Spec == Init /\ [][Next]_vars /\ WF_vars(LibServe) /\ WF_vars(LibCalls) /\ WF_vars(EnvEnds)
+             /\ WF_vars(EnvServes) /\ WF_vars(EnvCloses)
 
-TypeOK == /\ n \in 0..MaxItems /\ cfg \in Cfgs /\ pos \in 0..n /\ eof \in BOOLEAN /\ served \in {"running", "returned"}
+TypeOK == /\ life \in Lives /\ n \in 0..MaxItemsOf(life) /\ cfg \in Cfgs /\ pos \in 0..n /\ eof \in BOOLEAN
+          /\ served \in {"idle", "running", "returned"} /\ nserve \in 0..Serves(life) /\ outclosed \in BOOLEAN
           /\ ncalls \in 0..(MaxItems + 1) /\ nret \in 0..ncalls /\ loc \in LocalStates /\ cancelled \in BOOLEAN
-(* nothing is handed to a serve loop that has returned; a cancelled application starts nothing *)
-C09_NoFeedAfterReturn == [][served = "returned" => pos' = pos /\ ncalls' = ncalls]_vars
+          /\ (served = "idle" <=> nserve = 0)
+(* nothing is handed to a serve loop that is not running; an application whose session is      *)
+(* gone starts nothing                                                                         *)
+C09_NoFeedAfterReturn == [][served # "running" => pos' = pos /\ (life # "unserved" => ncalls' = ncalls)]_vars
 C09_Terminates == <>[]Quiescent
+(* the application's calls of Serve happen one after the other, never more often than its life *)
+(* says, and a session is closed locally only while nobody serves it                           *)
+C09_ServeSequential == [][nserve' # nserve => served # "running" /\ served' = "running" /\ nserve' = nserve + 1]_vars
 (* NoPanic has no state formula of its own: the outcome alphabets of ServeReturn and    *)
 (* CallReturn do not contain PANIC or STALL, so a trace with such an outcome is not a   *)
 (* behaviour of this specification (TrPeerInput rejects it at that event).              *)
-C09_NoPanic == served \in {"running", "returned"}
+C09_NoPanic == served \in {"idle", "running", "returned"}
 =============================================================================
